@@ -313,6 +313,7 @@ pub fn parse_ts_lit(s: &str) -> TsLit {
     let lenient = regex::Regex::new(r"^\s*([+-]?\d{1,9})\s*-\s*(\d{1,2})\s*-\s*(\d{1,2})\s+(\d{1,2})\s*:\s*(\d{1,2})\s*:\s*(\d{1,2})\s*$").unwrap();
     if let Some(c) = lenient.captures(s) {
         let g = |i: usize| c[i].parse::<i64>().unwrap_or(-1);
+        if g(6) == 60 { return TsLit::Maybe(ts_from_parts(g(1), g(2), g(3), g(4), g(5), 59, 0).map(|t| t + 1_000_000)); }
         return TsLit::Maybe(ts_from_parts(g(1), g(2), g(3), g(4), g(5), g(6), 0));
     }
     TsLit::No
